@@ -138,6 +138,105 @@ R.contract(
     ensures={"matches_iff_code_matches_key": "iff(ret, code_matches(ghost('status_code'), result.response.status_code))"},
 )
 
+R.contract(
+    ST + "default_status_code.<locals>.match_default_response",
+    prop="C10",
+    setup=_filter_setup("default_status_code", status_codes=ListOf(Choice("default", "200", "4XX"), [0, 1, 2])),
+    args={"result": StepOut},
+    result_name="ret",
+    ensures={
+        # the `default` link applies exactly to the responses that none of the other listed codes covers
+        "default_matches_iff_no_listed_code_matches": "iff(ret, not any(v != 'default' and code_matches(v, result.response.status_code) for v in ghost('status_codes')))",
+    },
+    bounded_note="up to 2 listed status codes",
+)
+
+# ------------------------------------------------------------------------------------------------- into_step_input: what the link extracted is what the next request is generated with
+INNER = ST + "into_step_input.<locals>.builder.<locals>.inner"
+RES = "schemathesis.core.result:"
+SM = "schemathesis.generation.stateful.state_machine:"
+UNRES_ = Global("schemathesis.core.transforms:UNRESOLVABLE")
+Extracted = lambda: Obj(SM + "ExtractedParam", definition=Opq("Any"), value=OneOf(Obj(RES + "Ok", _value=OneOf(Opq("LinkValue"), NoneT, UNRES_)), Obj(RES + "Err", _error=Opq("Error"))))
+BodyValue = OneOf(Opq("LinkValue"), UNRES_, DictOf(optional={"b": Opq("LinkValue")}))
+ExtractedBody = lambda: Obj(SM + "ExtractedParam", definition=Opq("Any"), value=OneOf(Obj(RES + "Ok", _value=BodyValue), Obj(RES + "Err", _error=Opq("Error"))))
+TransitionD = Obj(SM + "Transition", id=Str, parent_id=Str, parameters=DictOf(optional={"query": DictOf(optional={"q": Extracted()}), "path_parameters": DictOf(optional={"id": Extracted()})}),
+                  request_body=OneOf(NoneT, ExtractedBody()))
+
+
+def _inner_setup(it):
+    from pyvc import extract
+    from pyvc.interp import Env
+    from pyvc.values import VObj
+
+    mod, node, owner, chain = extract.find_def(INNER)
+    env = Env(module=mod)
+    transition = TransitionD.make(it, "transition")
+    link = VObj(it.resolve_class("spec:Link"), {"merge_body": Bool.make(it, "merge_body"), "__transition": transition})
+    env.vars["link"] = link
+    env.vars["target"] = VObj(it.resolve_class("spec:TargetOperation"), {})
+    cls = it.resolve_class("schemathesis.generation:GenerationMode")
+    it.ensure_enum(cls)
+    env.vars["modes"] = [cls.members["POSITIVE"]]
+    it.ghost["transition"] = transition
+    it.ghost["link"] = link
+    return it.make_function(node, mod, env, INNER.partition(":")[2]), {}
+
+
+def _as_strategy(it, obj, a, k):
+    it.ghost["generated_with"] = {name: v for name, v in k.items() if name != "generation_mode"}
+    return fresh_opaque(it, "Strategy")
+
+
+R.nominal_methods["spec:Link"] = {"extract": lambda it, obj, a, k: obj.fields["__transition"]}
+R.nominal_methods["spec:TargetOperation"] = {"as_strategy": _as_strategy}
+R.contract("schemathesis.generation.hypothesis.strategies:combine", args={"strategies": Opq("Any")}, returns=Opq("Strategy"), trusted=True, note="a | b of the per-mode strategies")
+DrawnCase = Obj("spec:DrawnCase", body=OneOf(Opq("GeneratedBody"), DictOf(optional={"a": Opq("GeneratedValue"), "b": Opq("GeneratedValue")})))
+R.contract("spec:draw_case", args={"strategy": Opq("Any")}, returns=DrawnCase, trusted=True, effects={"drawn": "result", "drawn_body": "snapshot_body(result.body)"}, note="E2 draw: a case of the target operation generated with the explicit values")
+R.spec_funcs["snapshot_body"] = lambda it, b: dict(b) if isinstance(b, dict) else b
+
+
+def _usable(it, p):
+    v = p.fields["value"]
+    if v.cls.name != "Ok":
+        return False
+    inner = v.fields["_value"]
+    return inner is not None and inner is not UNRES_.make(it, "UNRESOLVABLE")
+
+
+R.spec_funcs.update({"usable": _usable, "value_of": lambda it, p: p.fields["value"].fields["_value"]})
+T = "ghost('transition')"
+BODY_OK = f"({T}.request_body is not None and usable_body({T}.request_body))"
+R.spec_funcs["usable_body"] = lambda it, p: p.fields["value"].cls.name == "Ok" and p.fields["value"].fields["_value"] is not UNRES_.make(it, "UNRESOLVABLE")
+R.contract(
+    INNER,
+    prop="C10",
+    setup=_inner_setup,
+    args={"draw": Callable_(contract="spec:draw_case", name="draw"), "output": Opq("StepOutput")},
+    ghost={"transition": None, "link": None, "generated_with": None, "drawn": None, "drawn_body": None},
+    ensures={
+        # every parameter the link resolved is an explicit value of the next request - and nothing the link did not resolve is
+        "resolved_link_parameters_are_passed_on": f"all(c in ghost('generated_with') and all(iff(n in ghost('generated_with')[c], usable({T}.parameters[c][n])) and "
+                                                  f"implies(usable({T}.parameters[c][n]), ghost('generated_with')[c][n] is value_of({T}.parameters[c][n])) for n in {T}.parameters[c]) for c in {T}.parameters)",
+        "only_link_containers_are_made_explicit": f"all(c == 'body' or c in {T}.parameters for c in ghost('generated_with'))",
+        # requestBody of the link: replaces the body (passed as explicit value) unless merge_body, in which case it is merged over the generated one
+        "link_body_replaces_the_generated_one": f"implies({BODY_OK} and not ghost('link').merge_body, 'body' in ghost('generated_with') and ghost('generated_with')['body'] is value_of({T}.request_body))",
+        "no_link_body_no_explicit_body": f"implies(not {BODY_OK} or ghost('link').merge_body, 'body' not in ghost('generated_with'))",
+        "merged_body_has_the_link_values_over_the_generated_ones": f"implies({BODY_OK} and ghost('link').merge_body, merged_ok(result.case.body, ghost('drawn_body'), value_of({T}.request_body)))",
+        "transition_recorded": f"result.transition is {T} and result.case is ghost('drawn')",
+    },
+    replayable=False,
+    max_paths=30000,
+)
+
+
+def _merged_ok(it, final, generated, new):
+    if isinstance(generated, dict) and isinstance(new, dict):
+        return isinstance(final, dict) and set(final) == set(generated) | set(new) and all(final[k] is new[k] for k in new) and all(final[k] is generated[k] for k in generated if k not in new)
+    return final is new
+
+
+R.spec_funcs["merged_ok"] = _merged_ok
+
 LEVEL_TEXT = ("Deductive: structural recursion of evaluate/_evaluate_nested against a denotation (lists of any length by invariant, dicts up to 2 entries), node evaluation, "
               "status matching; the expression lexer/parser and JSON-pointer resolution are covered by exhaustive bounded stand-ins. Level other.")
 LEVEL_NOTE = "Trusted: lexer/parser/resolve_pointer (stand-ins), requests URL preparation, expand_status_code (C04), pyvc semantics (E9)."
